@@ -5,6 +5,7 @@
 //! line the observation for that job. Modes are documented in the respective modules.
 
 mod inplace;
+mod lowerq;
 mod solver;
 mod wrapdb;
 
@@ -42,6 +43,7 @@ fn main() {
         let res = match mode {
             "solve" => solver::run_job(&line),
             "inplace" => inplace::run_job(&line),
+            "lower" => lowerq::run_job(&line),
             _ => {
                 eprintln!("unknown mode {}", mode);
                 std::process::exit(2);
